@@ -134,6 +134,7 @@ func (w *vf15World) connect(rt *rapid.T, addr string, how int) {
 	id := w.conns
 	mt, has := w.live[addr]
 	if has && mt.validity() == 0 {
+		vf15Evidence().Excluded("histories: connect skipped, real time has moved a ticket too close to its expiry to predict the handshake", 1)
 		rt.Skip("real time has moved a ticket too close to its expiry to predict the handshake")
 	}
 	wantTicket := has && mt.validity() > 0
